@@ -541,3 +541,52 @@ Example C07_disk_nonvacuous :
     dmem "data/mypack/function/gone.mcfunction" tree = false /\ dmem "keep.txt" tree = true /\ dmem "pack.png" tree = true /\
     dget "data/mypack/function/main.mcfunction" tree = Some (DText "say hi").
 Proof. eexists. eexists. split; [vm_compute; reflexivity|]. repeat split; vm_compute; reflexivity. Qed.
+
+(* ------------------------------------------------------------------ (round 5) functions of the #copy library
+   DataPack.is_function_in_copy feeds build()'s undefined-call check.  Model: [in_copy] looks the called name up in the
+   copied tree under the ONE function folder the pack format loads (func_folder (c_legacy c): `function` from 48,
+   `functions` below).  (1) the check accepts a call to a name the program does not define iff the library ships it
+   there; (2) what the library ships there is a file of the tree; (3) every accepted build resolves every called function
+   outside the #link namespaces in the LOADED folder of the tree on disk. *)
+Theorem C07_disk_lib_call_accepted_iff :
+  forall c e st f p pre,
+  priv_violation st p pre = false -> amem p f = false -> mem_str (first_seg p) (c_links c) = false ->
+  (check_called_lib (in_copy c e) c st f [(p, pre)] = None <->
+   exists t, e_copy e = Some t /\ dmem (disk_path (fkey_of c p)) t = true) /\
+  k_folder (fkey_of c p) = Some (func_folder (c_legacy c)).
+Proof.
+  intros. split; [|apply fkey_of_folder]. rewrite <- in_copy_spec. now apply lib_call_accepted_iff.
+Qed.
+Print Assumptions C07_disk_lib_call_accepted_iff.
+
+Theorem C07_disk_called_resolves :
+  forall c e b st tree, dbuild c e b st = inr tree ->
+  forall p pre, In (p, pre) (called st) -> mem_str (first_seg p) (c_links c) = false ->
+  dmem (disk_path (fkey_of c p)) tree = true /\ k_folder (fkey_of c p) = Some (func_folder (c_legacy c)).
+Proof. exact disk_called_resolves. Qed.
+Print Assumptions C07_disk_called_resolves.
+
+Theorem C07_disk_without_copy_checks :
+  forall c e b st f, e_copy e = None -> checks_lib (in_copy c e) c b st f = checks c b st f.
+Proof. exact without_copy_checks. Qed.
+Print Assumptions C07_disk_without_copy_checks.
+
+(* concrete: pack format >= 48 (legacy = false).  The library ships lib/f under `function/`: accepted, the call's target is on
+   disk.  The same library under `functions/` (a folder Minecraft does not load at that format): "never defined".  A generated
+   function the library also ships: the build stops. *)
+Definition lx_ops : list op := [ONew 0 []; OFSet "load" 0; ONew 1 ["function mypack:lib/f"]; OFSet "main" 1; OCalled "lib/f" ""].
+Definition lx_env (folder : string) : denv :=
+  mkDenv [] false (Some [("data/mypack/" ++ folder ++ "/lib/f.mcfunction", DText "say lib")]) [].
+Example C07_disk_lib_folders :
+  exists st, run dx_c lx_ops = Some st /\
+    (exists tree, dbuild dx_c (lx_env "function") dx_b st = inr tree /\
+                  dget "data/mypack/function/lib/f.mcfunction" tree = Some (DText "say lib") /\
+                  disk_closedb dx_c (all_files dx_c dx_b st) tree = true) /\
+    dbuild dx_c (lx_env "functions") dx_b st = inl (DBuild (BNeverDefined "lib/f")) /\
+    dbuild (mkCfg (mkNames "mypack" "v" "i" "priv" "load" "tick" "st") true [] [] []) (lx_env "function") dx_b st
+      = inl (DBuild (BNeverDefined "lib/f")) /\
+    dbuild dx_c (mkDenv [] false (Some [("data/mypack/function/main.mcfunction", DText "say lib")]) []) dx_b st = inl DCopyClash.
+Proof. eexists. split; [vm_compute; reflexivity|]. split; [eexists; repeat split; vm_compute; reflexivity|]. repeat split; vm_compute; reflexivity. Qed.
+Theorem C07_disk_without_copy_disc : forall c e b st, e_copy e = None -> disc_lib c e b st = disc c b st.
+Proof. exact without_copy_disc. Qed.
+Print Assumptions C07_disk_without_copy_disc.
